@@ -16,3 +16,34 @@ fn regex_visit<const K: u8, const OWNED: bool>() {
 }
 macro_rules! rv_h { ($($n:ident: $k:expr, $o:expr;)*) => { $(#[kani::proof] #[kani::unwind(12)] #[kani::stub(std::ptr::drop_in_place, no_drop)] #[kani::stub(core::ptr::drop_glue, no_glue)] #[kani::stub(std::vec::Vec::extend_from_slice, extend_from_slice_model)] #[kani::stub(alloc::fmt::format, fmt_marker)] fn $n() { regex_visit::<$k, $o>() })* } }
 rv_h! { regex_visit_valid_str: 0, false; regex_visit_invalid_str: 1, false; regex_visit_valid_string: 2, true; regex_visit_invalid_string: 3, true; }
+
+// U-deserialize (C14): contract on the real derived `<Options as Deserialize>::deserialize`, driven through serde's own
+// MapDeserializer (no JSON text: serde_json's parser is assumed).  Postcondition: every key that is absent from the
+// configuration map has its documented default (`{}` == no configuration == Options::default()), a present boolean key
+// has the written value and changes no other field, an unknown key is ignored.
+fn de_check<const K: u8>() {
+    use serde::Deserialize;
+    let v: bool = kani::any();
+    // K = 0: `{}`; 1..=5: exactly one documented boolean key with a symbolic value; 6: one unknown key
+    let key: &'static str = match K { 1 => "transformOn", 2 => "optimize", 3 => "mergeProps", 4 => "enableObjectSlots", 5 => "resolveType", _ => "someUnknownKey" };
+    let r: Result<Options, serde::de::value::Error> = if K == 0 {
+        let entries: [(&'static str, bool); 0] = [];
+        Options::deserialize(serde::de::value::MapDeserializer::new(entries.into_iter()))
+    } else {
+        let entries: [(&'static str, bool); 1] = [(key, v)];
+        Options::deserialize(serde::de::value::MapDeserializer::new(entries.into_iter()))
+    };
+    assert!(r.is_ok(), "C14: `{}` / a partial configuration / an unknown key is accepted");
+    if let Ok(o) = &r {
+        assert!(o.transform_on == (if K == 1 { v } else { false }), "C14: absent transformOn == false; a written value is kept; other keys do not affect it");
+        assert!(o.optimize == (if K == 2 { v } else { false }), "C14: absent optimize == false; a written value is kept; other keys do not affect it");
+        assert!(o.merge_props == (if K == 3 { v } else { true }), "C14: absent mergeProps == true; a written value is kept; other keys do not affect it");
+        assert!(o.enable_object_slots == (if K == 4 { v } else { true }), "C14: absent enableObjectSlots == true; a written value is kept; other keys do not affect it");
+        assert!(o.resolve_type == (if K == 5 { v } else { false }), "C14: absent resolveType == false; a written value is kept; other keys do not affect it");
+        assert!(o.pragma.is_none(), "C14: absent pragma == none");
+        assert!(o.custom_element_patterns.is_empty(), "C14: absent customElementPatterns == empty");
+    }
+    std::mem::forget(r);
+}
+macro_rules! de_h { ($($n:ident: $k:expr;)*) => { $(#[kani::proof] #[kani::unwind(20)] #[kani::stub(std::ptr::drop_in_place, no_drop)] #[kani::stub(core::ptr::drop_glue, no_glue)] #[kani::stub(std::vec::Vec::extend_from_slice, extend_from_slice_model)] #[kani::stub(alloc::fmt::format, fmt_marker)] fn $n() { de_check::<$k>() })* } }
+de_h! { de_empty: 0; de_only_transform_on: 1; de_only_optimize: 2; de_only_merge_props: 3; de_only_enable_object_slots: 4; de_only_resolve_type: 5; de_unknown_key: 6; }
